@@ -384,6 +384,10 @@ where
         } = *self;
 
         let extra_hashes = hash_all(&parsed_args.extra_hash_files, &pool.clone()).await?;
+        // The cache key must not depend on the order in which the client's
+        // environment happens to list the variables: hash them in a canonical order.
+        let mut sorted_env_vars = env_vars.clone();
+        sorted_env_vars.sort();
         // Create an argument vector containing both preprocessor and arch args, to
         // use in creating a hash key
         let mut preprocessor_and_arch_args = parsed_args.preprocessor_args.clone();
@@ -445,7 +449,7 @@ where
                 parsed_args.language,
                 &preprocessor_and_arch_args,
                 &extra_hashes,
-                &env_vars,
+                &sorted_env_vars,
                 &absolute_input_path,
                 compiler.plusplus(),
                 preprocessor_cache_mode_config,
@@ -610,7 +614,7 @@ where
                 parsed_args.language,
                 &common_and_arch_args,
                 &extra_hashes,
-                &env_vars,
+                &sorted_env_vars,
                 &preprocessor_result.stdout,
                 compiler.plusplus(),
             )
